@@ -634,6 +634,30 @@ pub fn gen_random(s: &mut Src) -> (T, Layout) {
         a.push(N { leaf, kids: vec![], depth: d });
         a[p].kids.insert(pos, id);
     }
+    // now and then one node is made wide (a hundred to a thousand kids, as in files whose producer keeps the tree flat): mostly
+    // pages, with empty nodes and small subtrees at random places; in the "balanced" variant as many empty nodes as two-page
+    // nodes, so that the node's count equals its number of kids although not every kid is a page
+    if s.alt(80, &["narrow", "wide-node"]) == 1 {
+        let inner: Vec<usize> = (0..a.len()).filter(|&i| !a[i].leaf && a[i].depth < MAX_DEPTH - 1).collect();
+        if !inner.is_empty() {
+            let p = inner[s.draw(inner.len() as u32) as usize];
+            let w = if s.draw(12) == 0 { *s.pick(&[400usize, 511, 512, 513]) } else { *s.pick(&[100usize, 126, 127, 128, 129, 130, 131, 140, 200, 255, 256, 257, 300]) };
+            let w = w.min(1000 - a[p].kids.len());
+            let variant = s.alt(2, &["wide-all-pages", "wide-mixed", "wide-balanced"]);
+            let pairs = if variant == 2 { 1 + s.draw(3) as usize } else { 0 };
+            // kinds: 0 page, 1 empty node, 2 node with two pages, 3 node with one page
+            let mut kinds: Vec<u8> = (0..w).map(|_| if variant == 1 && s.draw(12) == 0 { 1 + s.draw(3) as u8 } else { 0 }).collect();
+            for k in 0..pairs { let i = s.draw(w as u32) as usize; let j = s.draw(w as u32) as usize; if i != j && kinds[i] == 0 && kinds[j] == 0 { kinds[i] = 1; kinds[j] = 2; } let _ = k; }
+            let d = a[p].depth + 1;
+            for k in kinds {
+                let id = a.len();
+                a.push(N { leaf: k == 0, kids: vec![], depth: d });
+                let pos = s.draw(a[p].kids.len() as u32 + 1) as usize;
+                a[p].kids.insert(pos, id);
+                for _ in 0..(match k { 2 => 2, 3 => 1, _ => 0 }) { let l = a.len(); a.push(N { leaf: true, kids: vec![], depth: d + 1 }); a[id].kids.push(l); }
+            }
+        }
+    }
     fn conv(a: &[N], i: usize) -> T { T { leaf: a[i].leaf, kids: a[i].kids.iter().map(|&k| conv(a, k)).collect(), m: false, c: false, r: false } }
     let shape = conv(&a, 0);
     // placements (preorder ids)
@@ -655,10 +679,13 @@ pub fn gen_random(s: &mut Src) -> (T, Layout) {
     }
     let mut cur = 0;
     let t = apply(&shape, &mut cur, &m, &c, &r);
-    let lay = Layout {
+    let mut lay = Layout {
         shuffle: if s.chance(3, 4) { Some(s.u32full() as u64) } else { None },
         objstm: s.chance(1, 3), res_indirect: s.chance(1, 3), real_box: s.chance(1, 4),
     };
+    // without a cache every look-up of a member re-reads its whole object stream: with hundreds of members the walk over a wide node
+    // becomes cubic by the library's design; the wide trees are therefore stored as ordinary objects
+    if f.len() > 80 { lay.objstm = false; }
     (t, lay)
 }
 
@@ -756,7 +783,7 @@ fn case_hash(t: &T) -> u64 { fnv(t.desc().as_bytes()) }
 
 pub fn run(run: &Run) {
     let nmax = if run.quick() { 6 } else { 8 };
-    run.rule(&format!("page trees: (a) EVERY rooted ordered shape with <= {nmax} nodes (root = Pages node; every other node a leaf Page or a Pages node with >= 0 kids) x every node subset S with |S| <= 3 x 3 placement schemes (MediaBox+CropBox+Resources on S; MediaBox+Resources on S, no CropBox anywhere; CropBox on S, MediaBox+Resources on the root only; the root additionally supplies MediaBox/Resources when S leaves a leaf uncovered), layout sampled per document; (b) seeded random trees <= 60 nodes, depth <= 12 edges, fan-out 0..6, 2/5 with a spine so that leaf depths 8..12 occur, independent random placements of the three attributes with unique markers. Layout = object numbers and file order shuffled / object stream + xref stream / Resources indirect / box numbers as reals. Each document is checked under uncached+strict and cached+strict: num_pages, get_page(i) and pages() for every leaf i (identity by /VerifLeaf marker and object number), get_page(count+0..2) root cause PageOutOfBounds, media_box/crop_box/resources markers against the nearest-provider model. distinct_nontrivial = distinct abstract trees (shape+placements) with at least one leaf below a nested Pages node"));
+    run.rule(&format!("page trees: (a) EVERY rooted ordered shape with <= {nmax} nodes (root = Pages node; every other node a leaf Page or a Pages node with >= 0 kids) x every node subset S with |S| <= 3 x 3 placement schemes (MediaBox+CropBox+Resources on S; MediaBox+Resources on S, no CropBox anywhere; CropBox on S, MediaBox+Resources on the root only; the root additionally supplies MediaBox/Resources when S leaves a leaf uncovered), layout sampled per document; (b) seeded random trees <= 60 nodes, depth <= 12 edges, fan-out 0..6, 2/5 with a spine so that leaf depths 8..12 occur, one in 81 with one node widened to 100..513 kids (all pages / pages mixed with empty nodes and one- and two-page nodes / as many empty as two-page nodes, so that count = number of kids), independent random placements of the three attributes with unique markers. Layout = object numbers and file order shuffled / object stream + xref stream / Resources indirect / box numbers as reals. Each document is checked under uncached+strict and cached+strict: num_pages, get_page(i) and pages() for every leaf i (identity by /VerifLeaf marker and object number), get_page(count+0..2) root cause PageOutOfBounds, media_box/crop_box/resources markers against the nearest-provider model. distinct_nontrivial = distinct abstract trees (shape+placements) with at least one leaf below a nested Pages node"));
     run.assume("mkpdf serialises the generated objects faithfully (the object-level re-walk in refimpl/c07_walk.rs checks Type/Parent/Count/acyclicity and re-derives order and attributes bottom-up; the byte level is shared with the other checks)");
     run.assume("a Pages node with an empty /Kids array and /Count 0 (labels empty-node, zero-pages) is a well-formed tree node, as the property's quantifier says");
     if let Err(e) = self_test() { run.inconclusive(format!("self-test failed: {}", e)); return; }
